@@ -65,4 +65,31 @@ Proof.
 case: (posnP n) => [->|n0]; last exact: mul_diag_lower_pos.
 by move=> _; apply/matrixP => -[].
 Qed.
+Lemma mul_diag_upper_pos n (x d : vec F) (u : tri F) C : (0 < n)%N -> size (mrow (tp u) 0) = tm u ->
+  qsm_mul fops (Diag n x) (Upper d u) = Some C -> den n C = den n (Diag n x) *m den n (Upper d u).
+Proof.
+move=> n0 wu; rewrite /qsm_mul /deconstruct; cbv beta iota.
+set rows := mkseq _ n.
+have E k : (k < n)%N -> nth (MkMulRow None [::] [::] None [::] [::] None) rows k = mul_row fops (Some x) None None (Some d) None (Some u) None None k.
+  by move=> kn; rewrite nth_mkseq.
+rewrite (E 0%N n0) /= /construct /= => -[<-] /=.
+rewrite mulmxDr; congr (_ + _).
+- rewrite -den_diag_mul /den_diag; congr diag_mx; apply/matrixP => i j.
+  by rewrite !mxE (nth_map (MkMulRow None [::] [::] None [::] [::] None)) ?size_mkseq // E //= nth_vmk.
+- rewrite (@den_sl_at_tm _ _ (tm u)); last by rewrite size_cat addn0; exact: wu.
+  rewrite den_diag_Dm -[Dm _ _]Dm_tr -trmx_mul /den_sl_at mulLD; congr (_^T); apply: denSL_ext => k kn.
+  + by rewrite /Pk /mrow /= (nth_map (MkMulRow None [::] [::] None [::] [::] None)) ?size_mkseq // E //= /cat2 /= cats0.
+  + rewrite /Qk /mrow /= (nth_map (MkMulRow None [::] [::] None [::] [::] None)) ?size_mkseq // E //= /cat2 /= cats0.
+    by rewrite cv_of_vscale /vget.
+  + by rewrite /Ak /tget /= (nth_map (MkMulRow None [::] [::] None [::] [::] None)) ?size_mkseq // E.
+Qed.
+
+(* diagonal @ upper-triangular: the literal branch scales the rows of q; the order of the result is read off the first
+   row of p, which has the declared order in every matrix the constructors of core.py accept (hypothesis) *)
+Theorem mul_diag_upper_sound n (x d : vec F) (u : tri F) C : size (mrow (tp u) 0) = tm u ->
+  qsm_mul fops (Diag n x) (Upper d u) = Some C -> den n C = den n (Diag n x) *m den n (Upper d u).
+Proof.
+case: (posnP n) => [->|n0]; last exact: mul_diag_upper_pos.
+by move=> _ _; apply/matrixP => -[].
+Qed.
 End MulDiag.
